@@ -269,6 +269,11 @@ pub trait Prop {
     fn exhaustive(&mut self, _tier: Tier) -> Vec<Val> {
         vec![]
     }
+    /// shard `k` of `m` of the exhaustive inputs, for enumerations that are expensive to
+    /// materialise completely in every shard process; `None` = use `exhaustive` and filter
+    fn exhaustive_shard(&mut self, _tier: Tier, _k: usize, _m: usize) -> Option<Vec<Val>> {
+        None
+    }
     /// run the implementation; `None` = the input is not in the harness' domain
     fn run(&mut self, input: &Val) -> Option<(Val, Vec<String>)>;
     /// re-derive the dependent fields of an input (segmentations, premise flags, oracle
@@ -310,11 +315,16 @@ pub fn main_loop(mut p: impl Prop) {
             let seed: u64 = arg(&args, "--seed").and_then(|s| s.parse().ok()).unwrap_or(0);
             let n: usize = arg(&args, "--n").and_then(|s| s.parse().ok()).unwrap_or(100);
             let inputs: Vec<Val> = if args.iter().any(|a| a == "--exhaustive") {
-                let all = p.exhaustive(tier);
                 // shard k of m
                 let k: usize = arg(&args, "--shard").and_then(|s| s.parse().ok()).unwrap_or(0);
-                let m: usize = arg(&args, "--shards").and_then(|s| s.parse().ok()).unwrap_or(1);
-                all.into_iter().enumerate().filter(|(i, _)| i % m == k).map(|(_, v)| v).collect()
+                let m: usize = arg(&args, "--shards").and_then(|s| s.parse().ok()).unwrap_or(1).max(1);
+                match p.exhaustive_shard(tier, k, m) {
+                    Some(own) => own,
+                    None => {
+                        let all = p.exhaustive(tier);
+                        all.into_iter().enumerate().filter(|(i, _)| i % m == k).map(|(_, v)| v).collect()
+                    }
+                }
             } else {
                 let mut rng = Rng::new(seed);
                 (0..n).map(|i| p.gen(&mut rng, tier, i, n)).collect()
